@@ -90,7 +90,9 @@ def harness_for(t, cname, spec):
         args.append('a_' + nm)
     pre = spec.get('harness_pre', '')
     call = '%s(%s);' % (cname, ', '.join(args))
-    return 'void h_%s(void) {\n%s\n%s\n  %s\n}\n' % (cname, '\n'.join(decls), pre, call)
+    # vacuity guard: this assertion MUST fail; if it is discharged the preconditions are contradictory
+    canary = '__CPROVER_assert(0, "VERIF_CANARY end of harness reachable");'
+    return 'void h_%s(void) {\n%s\n%s\n  %s\n  %s\n}\n' % (cname, '\n'.join(decls), pre, call, canary)
 
 
 def _limit(mem_gb):
@@ -126,6 +128,25 @@ def parse_cbmc(out):
     if res is None:
         return None, '; '.join(errs) or 'no result from cbmc'
     return res, status
+
+
+def digest_trace(tr, limit=80):
+    """Keep the user-level assignments of a cbmc trace (dfcc bookkeeping dropped)."""
+    if not tr:
+        return None
+    out = []
+    for st in tr:
+        if st.get('stepType') != 'assignment' or st.get('hidden'):
+            continue
+        lhs = st.get('lhs', '')
+        fn = st.get('sourceLocation', {}).get('function', '') or ''
+        if lhs.startswith('__') or 'write_set' in lhs or 'CPROVER' in fn or fn.startswith('__') or not fn:
+            continue
+        if lhs in ('set', 'idx', 'ptr', 'size', 'elem', 'may_fail', 'car', 'target', 'reference', 'candidate') or lhs.startswith('car.'):
+            continue
+        v = st.get('value', {})
+        out.append('%s:%s %s = %s' % (fn, st.get('sourceLocation', {}).get('line', '?'), lhs, v.get('data', v.get('name'))))
+    return out[-limit:]
 
 
 def prove_function(uname, t, cfile, qual, spec, tier, extra_replace):
@@ -187,9 +208,22 @@ def prove_function(uname, t, cfile, qual, spec, tier, extra_replace):
         loc = x.get('sourceLocation', {})
         obs.append({'name': x['property'], 'status': x['status'], 'description': x.get('description', ''),
                     'function': loc.get('function', ''), 'line': loc.get('line', ''),
-                    'trace': x.get('trace')})
+                    'trace': digest_trace(x.get('trace'))})
+    canary = [x for x in obs if 'VERIF_CANARY' in x['description']]
+    obs = [x for x in obs if 'VERIF_CANARY' not in x['description']]
     rec['obligations'] = obs
-    rec['status'] = 'proved' if status == 'success' and all(x['status'] == 'SUCCESS' for x in obs) else 'failed'
+    if not obs:
+        rec['reason'] = 'no obligations generated'
+        return rec
+    if all(x['status'] == 'SUCCESS' for x in obs):
+        # only now is the canary meaningful (a failed obligation can make it unreachable)
+        if not canary or canary[0]['status'] != 'FAILURE':
+            rec['reason'] = 'vacuous: the end of the harness is unreachable under the preconditions'
+            return rec
+        rec['status'] = 'proved'
+    else:
+        rec['status'] = 'failed'
+    rec['canary_reached'] = bool(canary and canary[0]['status'] == 'FAILURE')
     return rec
 
 
